@@ -13,3 +13,6 @@ open PubModel.C03 PubModel.Sni
 #print axioms inv_reach
 #print axioms PubModel.C03.gen_transport_repaired
 #print axioms apply_sound
+#print axioms pend_step
+#print axioms pend_reach
+#print axioms matching_reply_completes
